@@ -149,11 +149,22 @@ func cellCallMayModify(c ssa.CallInstruction, cell ssa.Value) bool {
 }
 
 // may the call instruction modify field fname?
+var separateInstances = map[string]bool{}
+
 func callMayModify(c ssa.CallInstruction, fname string) bool {
 	com := c.Common()
 	if b, ok := com.Value.(*ssa.Builtin); ok {
 		_ = b
 		return false
+	}
+	if separateInstances[fname] && com.IsInvoke() {
+		// the receiver of the call is the object held in a field of the object whose field fname is
+		// tracked: a different object (see fieldNonneg)
+		if u, ok := origin(com.Value).(*ssa.UnOp); ok && u.Op == token.MUL {
+			if _, isField := u.X.(*ssa.FieldAddr); isField {
+				return false
+			}
+		}
 	}
 	fn := c.Parent()
 	n := cg.Nodes[fn]
@@ -204,6 +215,7 @@ type funcInfo struct {
 	intFields         map[string]bool
 	neq               []Lin
 	substs            []substEntry
+	busyCall          map[*ssa.Call]bool
 	inOverflowProof   bool
 	outEpoch, inEpoch map[*ssa.BasicBlock]map[string]string
 	// callEpoch: the epochs of the tracked fields right before each call instruction
@@ -625,7 +637,9 @@ func (fi *funcInfo) term0(v ssa.Value) Lin {
 			if r, ok := fi.rel[ep+"|"+f+"|"+fi.vname(base)]; ok {
 				return r
 			}
-			return atom(fmt.Sprintf("val(%s.%s@%s)", fi.vname(base), f, ep))
+			va := fmt.Sprintf("val(%s.%s@%s)", fi.vname(base), f, ep)
+			valAtomType[va] = u.Type()
+			return atom(va)
 		}
 	}
 	switch x := v.(type) {
@@ -826,6 +840,9 @@ func (fi *funcInfo) noOverflow(x *ssa.BinOp, r Lin) bool {
 
 var valueByName = map[string]ssa.Value{}
 
+// valAtomType: the integer type of a field-value atom.
+var valAtomType = map[string]types.Type{}
+
 var fiByFn = map[*ssa.Function]*funcInfo{}
 
 func parentOf(v ssa.Value) *ssa.Function {
@@ -848,14 +865,47 @@ func (fi *funcInfo) contractFacts(a string, v ssa.Value, seen map[string]bool) [
 			call, idx = c, x.Index
 		}
 	}
-	if call == nil || idx != 0 {
+	if bo, ok := v.(*ssa.BinOp); ok {
+		// bit operations on values with a known number of significant bits
+		if bits, ok := unsignedBits(bo); ok {
+			if tb, _, isInt := isIntType(bo.Type()); isInt && bits < tb-1 {
+				out = append(out, atom(a), konstBig(new(big.Int).Sub(new(big.Int).Lsh(big.NewInt(1), uint(bits)), big.NewInt(1))).sub(atom(a)))
+			}
+		}
+		return out
+	}
+	if call == nil {
 		return nil
+	}
+	if idx != 0 {
+		if sc := call.Common().StaticCallee(); sc != nil && inMod(sc) {
+			for _, mk := range resultFacts(sc, idx) {
+				l := mk(fi, a, call)
+				out = append(out, l)
+				out = append(out, fi.rangeFactsSeen(seen, l)...)
+			}
+		}
+		return out
 	}
 	com := call.Common()
 	if b, ok := com.Value.(*ssa.Builtin); ok && b.Name() == "copy" {
 		d, s2 := fi.lenOf(com.Args[0]), fi.lenOf(com.Args[1])
 		out = append(out, atom(a), d.sub(atom(a)), s2.sub(atom(a)))
 		out = append(out, fi.rangeFactsSeen(seen, d, s2)...)
+		return out
+	}
+	if b, ok := com.Value.(*ssa.Builtin); ok && (b.Name() == "min" || b.Name() == "max") {
+		if _, _, isInt := isIntType(call.Type()); isInt {
+			for _, x := range com.Args {
+				t := fi.term(x)
+				if b.Name() == "min" {
+					out = append(out, t.sub(atom(a)))
+				} else {
+					out = append(out, atom(a).sub(t))
+				}
+				out = append(out, fi.rangeFactsSeen(seen, t)...)
+			}
+		}
 		return out
 	}
 	name := ""
@@ -883,7 +933,7 @@ func (fi *funcInfo) contractFacts(a string, v ssa.Value, seen map[string]bool) [
 		out = append(out, atom(a).addK(1), p.sub(atom(a)).addK(-1))
 	default:
 		if sc := com.StaticCallee(); sc != nil && inMod(sc) {
-			for _, mk := range resultFacts(sc) {
+			for _, mk := range resultFacts(sc, 0) {
 				l := mk(fi, a, call)
 				out = append(out, l)
 				out = append(out, fi.rangeFactsSeen(seen, l)...)
@@ -914,9 +964,20 @@ func (fi *funcInfo) rangeFactsSeen(seen map[string]bool, ls ...Lin) []Lin {
 				out = append(out, konstBig(new(big.Int).Lsh(big.NewInt(1), 56)).sub(atom(a))) // <= 2^56
 				continue
 			}
+			out = append(out, assumedFacts(a)...)
+			if t, ok := valAtomType[a]; ok {
+				if lo, hi := typeRange(t); lo != nil {
+					out = append(out, atom(a).sub(konstBig(lo)), konstBig(hi).sub(atom(a)))
+				}
+			}
 			if v, ok := valueByName[a]; ok {
 				if fi2 := fiByFn[parentOf(v)]; fi2 != nil {
 					out = append(out, fi2.contractFacts(a, v, seen)...)
+				}
+				if p, ok := v.(*ssa.Phi); ok {
+					if cr := phiConstRange(p); cr != nil {
+						out = append(out, atom(a).addK(-cr.lo), konst(cr.hi).sub(atom(a)))
+					}
 				}
 				if p, ok := v.(*ssa.Phi); ok {
 					if pi := analyzePhi(p); pi != nil && guarded(p, pi) {
@@ -1154,4 +1215,71 @@ func paramConstRange(p *ssa.Parameter) (lo, hi int64, ok bool) {
 		}
 	}
 	return lo, hi, n > 0
+}
+
+// unsignedBits: v is a non-negative value that fits into the returned number of bits: a
+// conversion of an unsigned narrower integer, a non-negative constant, or |, &, << (by a
+// constant) of such values.
+func unsignedBits(v ssa.Value) (int, bool) {
+	switch x := v.(type) {
+	case *ssa.Const:
+		if x.Value != nil && x.Value.Kind() == constant.Int {
+			if n, ok := constant.Int64Val(x.Value); ok && n >= 0 {
+				return big.NewInt(n).BitLen(), true
+			}
+		}
+	case *ssa.Convert:
+		bf, sf, ok := isIntType(x.X.Type())
+		bt, _, ok2 := isIntType(x.Type())
+		if ok && ok2 && !sf && bt > bf {
+			return bf, true
+		}
+		if ok && ok2 && bt >= bf {
+			if n, ok := unsignedBits(x.X); ok && n < bt {
+				return n, true
+			}
+		}
+	case *ssa.UnOp:
+		if x.Op == token.MUL {
+			if bf, sf, ok := isIntType(x.Type()); ok && !sf && bf <= 16 {
+				return bf, true
+			}
+		}
+	case *ssa.BinOp:
+		switch x.Op {
+		case token.OR, token.XOR:
+			a, ok1 := unsignedBits(x.X)
+			b, ok2 := unsignedBits(x.Y)
+			if ok1 && ok2 {
+				if b > a {
+					a = b
+				}
+				return a, true
+			}
+		case token.AND:
+			a, ok1 := unsignedBits(x.X)
+			b, ok2 := unsignedBits(x.Y)
+			if ok1 && ok2 && b < a {
+				return b, true
+			}
+			if ok1 {
+				return a, true
+			}
+			if ok2 {
+				return b, true
+			}
+		case token.SHL:
+			if c, ok := x.Y.(*ssa.Const); ok && c.Value != nil {
+				if n, ok := constant.Int64Val(constant.ToInt(c.Value)); ok && n >= 0 && n < 64 {
+					if a, ok := unsignedBits(x.X); ok {
+						return a + int(n), true
+					}
+				}
+			}
+		}
+	}
+	if bf, sf, ok := isIntType(v.Type()); ok && !sf && bf <= 16 {
+		return bf, true
+	}
+	return 0, false
 }
